@@ -2170,7 +2170,7 @@ class Measurement:
                 _mul(
                     exponent,
                     _mul(
-                        _pow(self.measurand.magnitude, 2),
+                        _pow(self.measurand.magnitude, exponent - 1),
                         self.uncertainty.magnitude,
                     ),
                 ),
